@@ -98,6 +98,10 @@ func runRepro() {
 		repro9()
 		return
 	}
+	if len(os.Args) > 2 && os.Args[2] == "10" {
+		repro10()
+		return
+	}
 	obj := func(name, val string, labels, sel map[string]string) Obj {
 		return mk(Obj{Name: name, Namespace: "ns", Val: val, Labels: labels, Selector: sel})
 	}
@@ -367,4 +371,40 @@ func repro9() {
 		fmt.Printf("     %s\n", e)
 	}
 	fmt.Printf("   final content %s (want [ns/both=a1(merged 1)])\n", keysOf(n.List()))
+}
+
+// repro10 (racing loop): krt.NewStatic, a handler registering with existing state while Set runs. RegisterBatch inserts
+// the handler, then loads the value and calls the handler with an Add on the caller's goroutine; Set swaps the value and
+// calls the handlers on the setter's goroutine; nothing orders the two. A consumer replaying the stream sees a
+// duplicate Add, an Update whose Old it never got, or a Delete of a key it never had.   /verif/bin/krtmon repro 10
+func repro10() {
+	seen := map[string]int{}
+	for i := 0; i < 20000; i++ {
+		v0 := mk(Obj{Name: "s", Namespace: "single", Val: "v0"})
+		v1 := mk(Obj{Name: "s", Namespace: "single", Val: "v1"})
+		s := krt.NewStatic[Obj](&v0, true)
+		r := &recorder{}
+		var wg sync.WaitGroup
+		wg.Add(1)
+		go func() {
+			defer wg.Done()
+			if i%2 == 0 {
+				s.Set(&v1)
+			} else {
+				s.Set(nil)
+			}
+		}()
+		s.AsCollection().RegisterBatch(func(es []krt.Event[Obj]) {
+			for _, e := range es {
+				r.rec(e)
+			}
+		}, true)
+		wg.Wait()
+		seen[strings.Join(r.get(), " | ")]++
+	}
+	fmt.Printf("10. static singleton {v0}; RegisterBatch(existing state) racing Set(v1) / Set(nil), 20000 runs; consistent streams are\n" +
+		"    [add v0 | update v0->v1], [add v1], [add v0 | delete v0], []; streams seen:\n")
+	for _, k := range sortedKeys(seen) {
+		fmt.Printf("     %5dx %s\n", seen[k], k)
+	}
 }
